@@ -131,6 +131,9 @@ func (l *Log) addChainOrPreChain(ctx context.Context, reqBody io.ReadCloser, che
 
 	body, err := io.ReadAll(reqBody)
 	if err != nil {
+		if mbe := new(http.MaxBytesError); errors.As(err, &mbe) {
+			return nil, http.StatusRequestEntityTooLarge, fmtErrorf("failed to read body: %w", err)
+		}
 		return nil, http.StatusInternalServerError, fmtErrorf("failed to read body: %w", err)
 	}
 	var req struct {
